@@ -107,6 +107,12 @@ def run(ctx):
 
     probes(ctx)
 
+    # >>> a_c10 (wave 4): deterministic sweeps over the value kinds of the logical document x every public text and binary
+    # entry point, with expectations computed from the abstract document (props/C10_kinds.py; audit/C10.md)
+    from props import C10_kinds
+    C10_kinds.run(ctx)
+    # <<< a_c10
+
     # scalar level of both formats against the extracted Serde model
     from props import descalar
     ctx.correspond("scalar-both", descalar.text_cases(ctx, ctx.scale(100, 1000)) + descalar.bin_cases(ctx, ctx.scale(60, 600)), nontrivial=nt)
